@@ -46,7 +46,13 @@ def fixed_archives(rnd):
     # sibling directories where one name is a prefix of the other: 'ab/' ends when 'abc/' begins
     a3 = [arc.dir_member(b'ab/', level=2, perms=0o40755), arc.file_member(rnd, '-lzs-', b'f', size=20, level=2, path=b'ab/'),
           arc.dir_member(b'abc/', level=0, perms=0o40755), arc.file_member(rnd, '-pm2-', b'g', size=20, level=0, path=b'abc/')]
-    return [('dir-file-file', a1), ('dir-danglink-file', a2), ('prefix-sibling-dirs', a3)]
+    # directories that carry no metadata at all (no time stamp, no permissions, no owner): they are re-presented like any other
+    d0 = arc.dir_member(b'plain/', level=0)
+    d0.m['dostime'] = 0
+    d2 = arc.dir_member(b'bare2/', level=2)
+    d2.m['time'] = 0
+    a4 = [d0, arc.file_member(rnd, '-lh0-', b'a', size=5, level=0, path=b'plain/'), d2, arc.file_member(rnd, '-lh5-', b'b', size=12, level=2, path=b'bare2/')]
+    return [('dir-file-file', a1), ('dir-danglink-file', a2), ('prefix-sibling-dirs', a3), ('dirs-without-metadata', a4)]
 
 
 def random_archive(rnd):
@@ -60,7 +66,11 @@ def random_archive(rnd):
             d = parent + rnd.choice([b'ab', b'abc', b'x', b'dir']) + (b'%d/' % j if rnd.random() < 0.5 else b'/')
             if d in dirs:
                 d = parent + b'u%d/' % j
-            ms.append(arc.dir_member(d, level=rnd.randrange(4), perms=rnd.choice([0o40755, 0o40700, 0o40555])))
+            ms.append(arc.dir_member(d, level=rnd.randrange(4), perms=rnd.choice([0o40755, 0o40700, 0o40555, None])))
+            if rnd.random() < 0.15:
+                ms[-1].m['dostime' if ms[-1].m['level'] < 2 else 'time'] = 0        # a directory without a time stamp
+                if ms[-1].m['level'] == 1:
+                    ms[-1].m['exts'] = [e for e in ms[-1].m['exts'] if e[0] != 0x54]
             dirs.append(d)
         elif r < 0.4:
             tgt = rnd.choice([b'safe', b'../up', b'/abs/target', b'a/../..', b'sub/ok'])
@@ -256,7 +266,7 @@ def run(ctx):
     multi_part(ctx, b, rnd)
     ctx.cov['exhaustive'] = True
     ctx.cov['exhaustive_subspace'] = ('all legal op sequences of length <= %d over {next, read(1), read(5), read-all, check, extract, extract-named} '
-                                      'on two 3-member archives x 3 directory policies' % depth)
+                                      'on four fixed archives (incl. directories without any metadata) x 3 directory policies' % depth)
     ctx.cov['rule'] = ('histories obey the side conditions (<= 1 decode operation per member, <= 1 extract per entry); exhaustive to the depth '
                        'bound on fixed archives, deferred-link ladders (3-4 dangerous links in every order x {skip, extract, extract to an explicit name} per link), seeded random on generated ones (2-6 members, all methods, nested dirs, safe/dangerous links, 4 '
                        'stream kinds); distinct by (archive, policy, history, stream kind); non-trivial = uses at least two different operations')
